@@ -147,17 +147,24 @@ def loop (lno : Nat) : Nat → Nat → List Char → St → Except Nat St
 
 structure LineOut where
   toks : List Tok
-  pending : String        -- `concatenated_strings` carried to the next line
+  pending : Option String -- `concatenated_strings` carried to the next line (`some ""` is a pending empty literal)
   endCol : Nat            -- column of `Lexer::loc()` after the line (used for EOF errors)
   deriving Repr
 
-/-- `Lexer::line(lno, line)` with `pending` = the carried `concatenated_strings` -/
-def line (lno : Nat) (pending : String) (ln : String) : Except Nat LineOut :=
+/-- `Lexer::line(lno, line)` with `pending` = the carried `concatenated_strings`
+(FIX(C10): an `Option`, so that a pending EMPTY literal is not mistaken for "nothing pending") -/
+def line (lno : Nat) (pending : Option String) (ln : String) : Except Nat LineOut :=
   let cs := ln.toList
-  let s0 : St := { strs := if pending.isEmpty then [] else [pending] }
+  let s0 : St := { strs := match pending with | some p => [p] | none => [] }
   match loop lno (cs.length + 1) 0 cs s0 with
   | .error c => .error c
-  | .ok s => .ok { toks := s.toks, pending := String.join s.strs, endCol := utf8Len cs + 1 }
+  | .ok s => .ok { toks := s.toks, pending := if s.strs.isEmpty then none else some (String.join s.strs),
+                   endCol := utf8Len cs + 1 }
+
+/-- `Lexer::finish()`: the string literal still pending at end of input, as a token positioned where the
+lexer stopped (FIX(C09): it used to be dropped silently) -/
+def finish (pending : Option String) (loc : Loc) : Option Tok :=
+  pending.map fun p => ⟨.strLit, p, loc⟩
 
 end Lex
 end Resynth
